@@ -22,3 +22,30 @@ pub type of64 = OrderedFloat<f64>;
 pub fn vec_f64_to_vec_of64(vec: Vec<f64>) -> Vec<of64> {
     unsafe { std::mem::transmute::<Vec<f64>, Vec<of64>>(vec) }
 }
+
+// verification hooks: re-export of module-private items (add-only, feature `verif`)
+#[cfg(feature = "verif")]
+#[allow(unused_imports)]
+pub mod verif_export {
+    pub mod byte_slices {
+        pub use super::super::byte_slices::*;
+    }
+    pub mod data {
+        pub use super::super::data::*;
+    }
+    pub mod nullable_vec_data {
+        pub use super::super::nullable_vec_data::*;
+    }
+    pub mod scalar_data {
+        pub use super::super::scalar_data::*;
+    }
+    pub mod types {
+        pub use super::super::types::*;
+    }
+    pub mod val_rows {
+        pub use super::super::val_rows::*;
+    }
+    pub mod vec_data {
+        pub use super::super::vec_data::*;
+    }
+}
